@@ -328,12 +328,159 @@ func realSkeleton(doc *OVal) string {
 	return strings.Join(parts, " ")
 }
 
+// ---- the SHAPE of the real catalog JSON, in the canonical text of Json.text (lean/JSight/Model/Json.lean):
+// objects "{<key hex>:<value>,…}" with the keys IN ORDER, arrays "[…]", strings "s<hex>" ("s-" when empty), null /
+// true / false, numbers "n<literal>" (none is expected outside the opaque subtrees), and "?" for exactly the subtrees
+// the model renders as `opaque` — decided by POSITION ("*" = a key of one of the four ordered maps, "[]" = an item):
+var opaqueJsonPositions = map[string]bool{
+	"userEnums":                                  true, // catalog.UserRules
+	"userTypes.*.schema":                         true, // catalog.Schema
+	"interactions.*.pathVariables":               true, // catalog.PathVariables
+	"interactions.*.query.schema":                true,
+	"interactions.*.request.headers.schema":      true,
+	"interactions.*.request.body.schema":         true,
+	"interactions.*.responses.[].headers.schema": true,
+	"interactions.*.responses.[].body.schema":    true,
+	"interactions.*.params.schema":               true,
+	"interactions.*.result.schema":               true,
+}
+
+// the objects whose keys are user-given names (generated ordered maps), by position
+var orderedMapPositions = map[string]bool{"tags": true, "servers": true, "userTypes": true, "interactions": true}
+
+func realJsonShape(doc *OVal) string {
+	var b strings.Builder
+	var rec func(v *OVal, pos string)
+	join := func(pos, k string) string {
+		if pos == "" {
+			return k
+		}
+		return pos + "." + k
+	}
+	rec = func(v *OVal, pos string) {
+		if opaqueJsonPositions[pos] {
+			b.WriteString("?")
+			return
+		}
+		if v == nil {
+			b.WriteString("null")
+			return
+		}
+		switch v.Kind {
+		case ONull:
+			b.WriteString("null")
+		case OBool:
+			if v.B {
+				b.WriteString("true")
+			} else {
+				b.WriteString("false")
+			}
+		case ONum:
+			b.WriteString("n" + v.S)
+		case OStr:
+			b.WriteString("s" + hxs(v.S))
+		case OArr:
+			b.WriteString("[")
+			for i, x := range v.Arr {
+				if i > 0 {
+					b.WriteString(",")
+				}
+				rec(x, join(pos, "[]"))
+			}
+			b.WriteString("]")
+		case OObj:
+			b.WriteString("{")
+			for i, kv := range v.Obj {
+				if i > 0 {
+					b.WriteString(",")
+				}
+				b.WriteString(hxs(kv.K) + ":")
+				if orderedMapPositions[pos] {
+					rec(kv.V, join(pos, "*"))
+				} else {
+					rec(kv.V, join(pos, kv.K))
+				}
+			}
+			b.WriteString("}")
+		}
+	}
+	rec(doc, "")
+	return b.String()
+}
+
+// pathVariableTokens: the Path directives the real code collected, as the "P<i>;<prefix>:<name>,…;<prop>,…" tokens
+func pathVariableTokens(c *core.JApiCore) string {
+	var b strings.Builder
+	for i, v := range c.VerifRawPathVariableDetails() {
+		var pp, props []string
+		for _, x := range v.Params {
+			pp = append(pp, hxs(x[0])+":"+hxs(x[1]))
+		}
+		for _, x := range v.Props {
+			props = append(props, hxs(x))
+		}
+		fmt.Fprintf(&b, " P%d;%s;%s", i, strings.Join(pp, ","), strings.Join(props, ","))
+	}
+	return b.String()
+}
+
+// shapeFirstDiff: a window around the first position where two texts differ
+func shapeFirstDiff(a, b string) string {
+	i := 0
+	for i < len(a) && i < len(b) && a[i] == b[i] {
+		i++
+	}
+	lo := i - 120
+	if lo < 0 {
+		lo = 0
+	}
+	return fmt.Sprintf("at %d: implementation …%s, model …%s", i, trunc(a[lo:], 300), trunc(b[lo:], 300))
+}
+
+// jsonShapeCorrespondence: for every ACCEPTED case, the rendering model (Model/Json.lean `render`, op buildjson)
+// against the shape of the real catalog JSON: key order, key set, every model-level string.
+func jsonShapeCorrespondence(ctx *Ctx, mp *ModelProc, cases []buildCase, describe func(i int) string, label string) {
+	var reqs []string
+	var idx []int
+	for i, bc := range cases {
+		if bc.Skip != "" || !strings.HasPrefix(bc.Real, "ok ") || bc.RealJson == "" {
+			continue
+		}
+		reqs = append(reqs, "buildjson "+strings.TrimPrefix(bc.Proto, "build ")+bc.PVs)
+		idx = append(idx, i)
+	}
+	outs, err := mp.Batch(reqs)
+	if err != nil {
+		ctx.Break("model executable jsight-build failed (buildjson): " + err.Error())
+		return
+	}
+	bad := 0
+	for k, out := range outs {
+		bc := cases[idx[k]]
+		if strings.Contains(bc.RealJson, "?") {
+			ctx.Cov.Hit("json shape: with opaque subtrees")
+		}
+		if out == "ok "+bc.RealJson {
+			continue
+		}
+		bad++
+		if bad <= 3 {
+			ctx.Break(fmt.Sprintf("correspondence catalog serialisation (JSON tree differs): %s: %s", describe(idx[k]), shapeFirstDiff("ok "+bc.RealJson, out)))
+		}
+	}
+	ctx.Cov.Component("catalog serialisation: Model/Json.lean render (jsight-build buildjson) vs the object tree of Catalog.ToJson() (key order, key set, strings; schemas / pathVariables / userEnums opaque) on the accepted ones of "+label, len(reqs), bad, "")
+}
+
 type buildCase struct {
 	Proto string
 	Dirs  []buildDir
 	Real  string // "ok <skeleton>" | "err <class>"
 	ErrAt []int  // model ids the real diagnostic may be located at
 	Skip  string
+	// accepted documents only: the shape of the real catalog JSON (realJsonShape) and the collected Path
+	// directives (the "P…" tokens of the ops bind / buildjson)
+	RealJson string
+	PVs      string
 }
 
 // buildCaseOf runs the real code on one single-file document.
@@ -443,6 +590,8 @@ func buildCaseAt(rootName string, rootContent []byte, banned []directive.Enumera
 		return
 	}
 	bc.Real = "ok " + realSkeleton(doc)
+	bc.RealJson = realJsonShape(doc)
+	bc.PVs = pathVariableTokens(c1)
 	return
 }
 
@@ -527,6 +676,9 @@ func buildCorrespondenceProjects(ctx *Ctx, projects []Project, label string) {
 		}
 	}
 	ctx.Cov.Component("catalog construction: Model/Build.lean (jsight-build) vs the real pipeline on "+label, len(reqs), bad, "")
+	jsonShapeCorrespondence(ctx, mp, cases, func(i int) string {
+		return fmt.Sprintf("document %q", trunc(string(projects[i].Files[projects[i].Root]), 700))
+	}, label)
 }
 
 // lineMutant: a document with one line deleted, duplicated, moved, re-indented or with its keyword replaced —
@@ -690,4 +842,5 @@ func buildCorrespondenceFixtureProjects(ctx *Ctx) {
 		}
 	}
 	ctx.Cov.Component("catalog construction: Model/Build.lean vs the real pipeline on the fixture projects that use INCLUDE", len(reqs), bad, "")
+	jsonShapeCorrespondence(ctx, mp, cases, func(i int) string { return "fixture " + names[i] }, "the fixture projects that use INCLUDE")
 }
